@@ -28,6 +28,8 @@ def load_lib():
 
 
 def cps(s):
+    if type(s) is not str and isinstance(s, str):
+        s = str.__str__(s)          # a str subclass (AnsiStr) may iterate over formatted pieces: take its plain payload
     return [ord(c) for c in s]
 
 
@@ -151,6 +153,11 @@ class Machine:
         A = self.lib.AnsiString
         broken = 0
         text = obj.base_str
+        if type(text) is not str:
+            # the base text must be a plain str (a str subclass stored there re-formats itself when it is sliced): the value
+            # is inconsistent; project the plain characters so that the rest of the trace can still be judged
+            broken = 1
+            text = str.__str__(text) if isinstance(text, str) else str(text)
         n = len(text)
         saved = A.WITH_ASSERTIONS
         try:
